@@ -550,6 +550,38 @@ def slice_sort_any(r):
     return ()
 
 
+def slice_sort_by(fn, byref):
+    import functools
+
+    def f(r, clo):
+        v = D(r)
+        cell = [clo]
+
+        def cmp(a, b):
+            o = _call(fn, byref, cell, mkref(a), mkref(b))
+            return -1 if o[0] == LESS[0] else (1 if o[0] == 1 else 0)
+        v.items.sort(key=functools.cmp_to_key(cmp))
+        return ()
+    return f
+
+
+def slice_sort_by_key(fn, byref):
+    def f(r, clo):
+        v = D(r)
+        cell = [clo]
+        v.items.sort(key=lambda x: _ordkey(_call(fn, byref, cell, mkref(x))))
+        return ()
+    return f
+
+
+def ordering_reverse(o):
+    return LESS if o[0] == 1 else (GREATER if o[0] == LESS[0] else EQUAL)
+
+
+def ordering_then(a, b):
+    return a if a[0] != 0 else b
+
+
 def vec_dedup(r):
     v = D(r)
     out = []
@@ -1172,6 +1204,10 @@ def ord_min(a, b):
 def usize_cmp(a, b):
     x, y = D(a), D(b)
     return LESS if x < y else (GREATER if x > y else EQUAL)
+
+
+def usize_partial_cmp(a, b):
+    return (1, usize_cmp(a, b))
 
 
 def mem_replace(r, v):
